@@ -959,6 +959,8 @@ class Engine:
                     raise Unsupported("realloc of a typed region")
             # realloc(p, 0) may free and return NULL; modelled as: either a new block or NULL with p untouched
             return ("split", [(None, {}, mk), (None, {dest: NULL}, None)])
+        if callee in getattr(self, "summaries", {}):
+            return self.apply_summary(self.summaries[callee], st, env, vals, dest, ftop)
         if callee in self.fns and self.fns[callee].blocks and len(self.fns[callee].order) > 0 and sum(len(b) for b in self.fns[callee].blocks.values()) > 0:
             cf = self.fns[callee]
             # byval arguments are copies
@@ -977,6 +979,61 @@ class Engine:
 class PathEnd(Exception):
     pass
 
+def _apply_summary(self, c, st, env, vals, dest, ftop):
+    """Call of an internal function that has a `summary` contract: the callee's body is not
+    entered; its outputs are fresh values constrained by the summary's ensures clauses (an
+    assumed contract, reported as such; the summary names how the callee itself is checked)."""
+    if len(vals) != len(c.params):
+        raise Unsupported("summary %s: %d parameters in the contract, %d at the call" % (c.name, len(c.params), len(vals)))
+    count = None
+    for (ty, name, is_out), v in zip(c.params, vals):
+        if ty == "count":
+            v = z3.simplify(v)
+            if not z3.is_bv_value(v):
+                raise Unsupported("summary %s: limb count is not a constant at the call" % c.name)
+            count = v.as_long()
+    spec = {}
+    outs = []
+    self.fresh += 1
+    tag = self.fresh
+    for (ty, name, is_out), v in zip(c.params, vals):
+        if ty == "limbs":
+            if count is None:
+                raise Unsupported("summary %s: limbs parameter without a count parameter" % c.name)
+            if not isinstance(v, Ptr) or v.rid == 0 or not isinstance(v.off, int):
+                raise Unsupported("summary %s: limbs argument is not a concrete pointer" % c.name)
+            reg = st.regions[v.rid]
+            self.oblige(st, ftop + ".safety:in-bounds", "safety", 0 <= v.off and v.off + 8 * count <= reg.size, "summary %s arg %s" % (c.name, name))
+            if is_out:
+                nv = z3.BitVec("%s!%s!%d" % (c.name, name, tag), 64 * count)
+                outs.append((reg, v.off, nv))
+                spec[name] = nv
+            else:
+                spec[name] = limbs_to_bv([self.read_cell(st, reg, v.off + 8 * i, 8) for i in range(count)])
+        elif ty == "count":
+            spec[name] = z3.simplify(v)
+        else:
+            spec[name] = v
+    # outputs alias inputs only if the same pointer was passed: inputs were read above, before any write
+    for reg, off, nv in outs:
+        for i in range(count):
+            self.write_cell(reg, off + 8 * i, 8, z3.Extract(64 * i + 63, 64 * i, nv))
+    envs = spec_env()
+    if c.ret == "bool":
+        rb = z3.Bool("%s!result!%d" % (c.name, tag))
+        spec["result"] = rb
+        if dest:
+            env[dest] = z3.If(rb, bv(1, 1), bv(0, 1))
+    elif c.ret != "void":
+        raise Unsupported("summary %s: return type %s" % (c.name, c.ret))
+    for r in c.requires:
+        self.oblige(st, "%s.requires-at-call:%s" % (ftop, c.name), "requires-at-call", eval(r, {**envs, **spec}), c.name)
+    for e in c.ensures:
+        st.pc.append(eval(e, {**envs, **spec}))
+    self.notes.add("summary of %s assumed at its call sites (the callee is checked separately: %s)" % (c.name, c.bounded or "not checked"))
+    return None
+
+
 # ------------------------------------------------------------------ contracts
 
 class Contract:
@@ -984,6 +1041,8 @@ class Contract:
         self.name, self.ret, self.params = name, ret, params
         self.requires, self.ensures, self.bounded, self.line = [], [], None, 0
         self.lemmas = []
+        self.summary = False
+        self.native = None
 
 def parse_contracts(path):
     out = []
@@ -998,7 +1057,16 @@ def parse_contracts(path):
             if s[7:].strip() == "opaque-mul":
                 OPAQUE_MUL[0] = True
             continue
-        if s.startswith("func "):
+        if s.startswith("nativefunc "):
+            cur = Contract(s[11:].strip(), "void", [])
+            cur.line = ln
+            out.append(cur)
+            last = None
+            continue
+        if s.startswith("func ") or s.startswith("summary "):
+            is_summary = s.startswith("summary ")
+            if is_summary:
+                s = "func " + s[8:]
             m = re.match(r"^func (\w+)\s*:\s*([\w*]+)\s*<-\s*(.*)$", s)
             if not m:
                 raise SystemExit("%s:%d: bad func line" % (path, ln))
@@ -1010,6 +1078,7 @@ def parse_contracts(path):
                     toks = toks[1:]
                 params.append((toks[0], toks[1], out_flag))
             cur = Contract(m.group(1), m.group(2), params)
+            cur.summary = is_summary
             cur.line = ln
             out.append(cur)
         elif s.startswith("requires "):
@@ -1023,6 +1092,8 @@ def parse_contracts(path):
             last = cur.lemmas
         elif s.startswith("bounded "):
             cur.bounded = s[8:].strip()
+        elif s.startswith("native "):
+            cur.native = s[7:].strip()
         else:
             # continuation
             if cur and last:
@@ -1030,6 +1101,8 @@ def parse_contracts(path):
             else:
                 raise SystemExit("%s:%d: unknown line" % (path, ln))
     return out
+
+Engine.apply_summary = _apply_summary
 
 FUNC_BUDGET = int(os.environ.get('LLVC_FUNC_BUDGET', '90'))
 OPAQUE_MUL = [False]
@@ -1339,6 +1412,30 @@ def worker(job):
             res["functions"].append(fo)
             continue
         fo["ssa_instrs"] = sum(len(b) for b in fns[c.name].blocks.values())
+        if c.native:
+            # bounded native stand-in: the real function, compiled by cc, on a stated family of inputs
+            sys.path.insert(0, os.path.dirname(os.path.abspath(__file__)))
+            import bounded as B
+            name = "%s.bounded:%s" % (c.name, c.native)
+            ag = {"name": name, "kind": "bounded", "func": c.name, "where": [], "instances": 0, "trivial": 0, "status": "unsat",
+                  "solvers": {}, "secs": 0.0, "max_secs": 0.0, "failures": []}
+            ts = time.time()
+            try:
+                exe = B.build(repo, os.path.join(outdir, "bounded_" + c.name))
+                ncases, fail, family = B.FAMILIES[c.native](exe)
+                ag["instances"] = ncases
+                ag["solvers"]["native-run(bounded)"] = ncases
+                fo["bounded"] = (c.bounded or "") + " — family: " + family + " (%d cases)" % ncases
+                if fail is not None:
+                    ag["status"] = "sat"
+                    ag["failures"].append({"where": "native run of " + c.name, "model": {k: str(v) for k, v in fail.items()}, "smt_file": None})
+            except Exception as e:
+                fo["error"], fo["error_kind"] = "bounded stand-in: " + str(e), "unsupported"
+            ag["secs"] = ag["max_secs"] = time.time() - ts
+            agg[name] = ag
+            order.append(name)
+            res["functions"].append(fo)
+            continue
         # aliasing configurations for pointer parameters
         ptr_idx = [k for k, (ty, _, _) in enumerate(c.params) if ty.endswith("*") and ty != "array*"]
         cfgs = [None]
@@ -1367,7 +1464,11 @@ def worker(job):
         try:
             for cfg in cfgs:
                 eng = Engine(fns, timeout_ms=a.timeout * 1000)
+                eng.summaries = {x.name: x for x in contracts if x.summary}
                 obls, inputs = verify_contract(eng, fns, c, cfg)
+                for nt in eng.notes:
+                    if nt.startswith("summary of ") and nt not in fo.setdefault("notes", []):
+                        fo["notes"].append(nt)
                 fo["paths"] += eng.paths
                 tag = ""
                 if cfg and nullable:
@@ -1587,6 +1688,12 @@ def main():
         res["functions"].append(fo)
         if fo.get("bounded"):
             res["assumption_scan"]["bounded"] = res["assumption_scan"].get("bounded", 0) + 1
+            res["notes"].append("BOUNDED (not proved): %s — %s" % (fo["func"], fo["bounded"]))
+        for nt in fo.get("notes", []):
+            if nt not in res["notes"]:
+                res["notes"].append(nt)
+            k = "summary contract: " + nt.split(" ")[2]
+            res["assumed_dependency_contracts"][k] = res["assumed_dependency_contracts"].get(k, 0) + 1
         total_solver += ts
         vcs += nv
         for ag in aggs:
